@@ -405,7 +405,7 @@ func fluentCase(seed uint64, idx int) *CaseSpec {
 				}
 				sentSoFar++
 				if !st.waitSent(sentSoFar, wd(3*time.Second)) {
-					t.Add("hang")
+					t.Add("fl.unsent %s", S(fmt.Sprintf("AddEntry/ReplaceEntry/DeleteEntry (type %d) of %d entries", ty, len(ks))))
 					t.Add("end")
 					return t, nil
 				}
@@ -510,7 +510,7 @@ func fluentCase(seed uint64, idx int) *CaseSpec {
 				c.Modify().UpdateElectionID(nil, lo, hi)
 				sentSoFar++
 				if !st.waitSent(sentSoFar, wd(3*time.Second)) {
-					t.Add("hang")
+					t.Add("fl.unsent %s", S(fmt.Sprintf("UpdateElectionID(%d, %d)", lo, hi)))
 					t.Add("end")
 					return t, nil
 				}
